@@ -107,6 +107,12 @@ def _r6_gaunt(run, prog):
     if ci is None or 'evaluate' not in ci.methods or '__init__' not in ci.methods:
         raise AnalysisError('anchored class vanished: InterpolatedFreeFreeGauntFactor')
     fn = ci.methods['evaluate']
+    try:
+        # the Born / classical expressions moved into private helpers are read where they are called
+        from ..inline import flatten, class_lookup, module_lookup
+        fn = flatten(flatten(fn, class_lookup(prog, ci)), module_lookup(mi, prog=prog))
+    except Exception:
+        pass
     K = mi.name + '|InterpolatedFreeFreeGauntFactor|'
     z, T, wl = [a.arg for a in fn.args.args[1:4]]
     ev = EmEval()
